@@ -44,7 +44,20 @@ func checkTagLine(line string) (Outcome, error) {
 	for _, t := range want {
 		wantS = append(wantS, model.TagString(t))
 	}
-	if strings.Join(got, "\x00") != strings.Join(wantS, "\x00") {
+	// which tags are recognised: a set (order and repetition of ToStrings are not constrained)
+	asSet := func(xs []string) string {
+		m := map[string]bool{}
+		for _, x := range xs {
+			m[x] = true
+		}
+		var ks []string
+		for k := range m {
+			ks = append(ks, k)
+		}
+		sort.Strings(ks)
+		return strings.Join(ks, "\x00")
+	}
+	if asSet(got) != asSet(wantS) {
 		return out, fmt.Errorf("summary %q: klog recognises %q, the specification defines %q", line, got, wantS)
 	}
 	if ts.IsEmpty() != (len(want) == 0) {
